@@ -732,7 +732,7 @@ where
                 BinOp {
                     apply: cross,
                     prio: 4,
-                    is_commutative: true,
+                    is_commutative: false,
                 },
             ),
             Operator::make_bin(
@@ -841,7 +841,7 @@ where
                 BinOp {
                     apply: |a, b| Val::Bool(a == b),
                     prio: 1,
-                    is_commutative: true,
+                    is_commutative: false,
                 },
             ),
             Operator::make_bin(
@@ -881,7 +881,7 @@ where
                 BinOp {
                     apply: |a, b| Val::Bool(a != b),
                     prio: 1,
-                    is_commutative: true,
+                    is_commutative: false,
                 },
             ),
             Operator::make_bin(
